@@ -258,3 +258,12 @@ def bv_eq(a, b, w):
 def bv_ult(a, b, w):
     m = (1 << w) - 1
     return (a & m) < (b & m)
+
+
+def mk_opresult(den_, type=None):
+    from xdsl.dialects.test import TestOp
+
+    op = TestOp(result_types=[type])
+    v = op.results[0]
+    _RT[id(v)] = dict(val=den_, keep=op)
+    return v
